@@ -235,34 +235,17 @@ func hasAbsoluteRoutes(root *expr.RootExpr) bool {
 }
 
 func summaryFromExpr(name string, e *expr.HTTPEndpointExpr) string {
-	for n, mdata := range e.Meta {
-		if (n == "openapi:summary" || n == "swagger:summary") && len(mdata) > 0 {
-			return mdata[0]
-		}
-	}
-	for n, mdata := range e.MethodExpr.Meta {
-		if (n == "openapi:summary" || n == "swagger:summary") && len(mdata) > 0 {
-			return mdata[0]
-		}
-	}
-	for n, mdata := range e.Service.ServiceExpr.Meta {
-		if (n == "openapi:summary" || n == "swagger:summary") && len(mdata) > 0 {
-			return mdata[0]
-		}
-	}
-	for n, mdata := range expr.Root.API.Meta {
-		if (n == "openapi:summary" || n == "swagger:summary") && len(mdata) > 0 {
-			return mdata[0]
+	for _, meta := range []expr.MetaExpr{e.Meta, e.MethodExpr.Meta, e.Service.ServiceExpr.Meta, expr.Root.API.Meta} {
+		if summary, ok := openapi.SummaryFromExpr(meta); ok {
+			return summary
 		}
 	}
 	return name
 }
 
 func summaryFromMeta(name string, meta expr.MetaExpr) string {
-	for n, mdata := range meta {
-		if (n == "openapi:summary" || n == "swagger:summary") && len(mdata) > 0 {
-			return mdata[0]
-		}
+	if summary, ok := openapi.SummaryFromExpr(meta); ok {
+		return summary
 	}
 	return name
 }
